@@ -470,20 +470,29 @@ func main() {
 		_ = os.RemoveAll(dir)
 	}
 	// init spec
-	for _, title := range []string{"My API", "123", "yes", "a: b"} {
+	// every ambiguous scalar visits every free-text option of init spec; the two strings that the pinned yaml.v3 itself
+	// cannot round-trip (known findings, keyed by cause) get runs of their own so that they cannot hide anything else
+	initOpts := []string{"title", "description", "version", "terms", "license.name", "contact.name"}
+	yamlBroken := map[string]string{"<<": "string-equal-to-merge-key", "\nleading newline": "string-with-leading-line-break"}
+	runInit := func(used map[string]string, key string) {
 		var outs [2][]byte
-		ok := true
+		args := []string{}
+		for _, o := range initOpts {
+			if v, ok := used[o]; ok {
+				args = append(args, "--"+o+"="+v)
+			}
+		}
 		for k, format := range []string{"json", "yaml"} {
-			dir := filepath.Join(*work, "init-"+format)
+			dir := filepath.Join(*work, "initdir")
 			_ = os.RemoveAll(dir)
 			_ = os.MkdirAll(dir, 0o755)
-			res := gorun.Swagger(*bin, dir, 60*time.Second, "init", "spec", "--format", format, "--title", title, "--description", "multi\nline: desc", "--version", "1.0", dir)
+			res := gorun.Swagger(*bin, dir, 60*time.Second, append(append([]string{"init", "spec", "--format", format}, args...), dir)...)
 			evals++
 			cov["cmd:init spec"]++
 			if res.Exit != 0 {
-				ok = false
 				cov["command-error"]++
-				break
+				_ = os.RemoveAll(dir)
+				return
 			}
 			if format == "yaml" {
 				outs[k], _ = yamlFileToJSON(filepath.Join(dir, "swagger.yml"))
@@ -492,15 +501,37 @@ func main() {
 			}
 			_ = os.RemoveAll(dir)
 		}
-		if ok {
-			x, e1 := decodeExact(outs[0])
-			y, e2 := decodeExact(outs[1])
-			if e1 != nil || e2 != nil {
-				cov["init-output-unreadable"]++
-			} else if d := firstDiff("", x, y); d != "" {
-				viols = append(viols, violation{"c19/yaml-output-differs[init spec]", "init spec: the yaml document differs from the json one", map[string]interface{}{"title": title}, d})
+		x, e1 := decodeExact(outs[0])
+		y, e2 := decodeExact(outs[1])
+		if e1 != nil || e2 != nil {
+			cov["init-output-unreadable"]++
+			k := "c19/output-unreadable[init spec]"
+			if key != "" {
+				k = key
 			}
+			viols = append(viols, violation{k, "init spec: one of the two renderings does not load", map[string]interface{}{"options": used}, fmt.Sprint(e1, e2)})
+		} else if d := firstDiff("", x, y); d != "" {
+			k := "c19/yaml-output-differs[init spec]"
+			if key != "" {
+				k = key
+			}
+			viols = append(viols, violation{k, "init spec: the yaml document differs from the json one", map[string]interface{}{"options": used}, d})
 		}
+	}
+	for i := range scalars {
+		used := map[string]string{}
+		for k, o := range initOpts {
+			sc := scalars[(i+k*7)%len(scalars)]
+			if _, bad := yamlBroken[sc.text]; bad {
+				continue
+			}
+			used[o] = sc.text
+			cov["init-option:"+o+":"+sc.class]++
+		}
+		runInit(used, "")
+	}
+	for text, cause := range yamlBroken {
+		runInit(map[string]string{"title": text}, "c19/yaml-rendering-broken["+cause+"]")
 	}
 	// integer text round trip cases for the Coq model: Go's decimal rendering of integers vs dec_of_Z
 	for i := 0; i < 400; i++ {
@@ -527,8 +558,8 @@ func main() {
 	sort.Slice(viols, func(i, j int) bool { return viols[i].Key < viols[j].Key })
 	rep := map[string]interface{}{
 		"evaluations": evals, "distinct_nontrivial": len(jobs) * 24,
-		"rule":       "documents = a fixed spec (numeric-looking map keys, integers up to 2^53, floats with exponents, allOf last definition, top-level extension) with 2-6 scalars from a table of ~50 ambiguous strings (number-, bool-, null-, timestamp-like, multi-line with and without trailing newline, leading/trailing blanks, non-ASCII, every YAML indicator, control characters) at random string positions; each document goes through flatten, expand and mixin x {json,yaml} input x {json,yaml} output x compact/pretty; YAML outputs are reloaded with swag.YAMLDoc and compared with the JSON output as exact JSON values (numbers as exact decimals). generate spec (.json vs .yml, integers beyond 2^53) and init spec are run on fixed inputs. Each (document, command, compact) triple is a distinct non-trivial case.",
-		"samples":    samples, "coverage": cov, "violations": viols, "model_cases": len(intCases),
+		"rule":    "documents = a fixed spec (numeric-looking map keys, integers up to 2^53, floats with exponents, allOf last definition, top-level extension) with 2-6 scalars from a table of ~50 ambiguous strings (number-, bool-, null-, timestamp-like, multi-line with and without trailing newline, leading/trailing blanks, non-ASCII, every YAML indicator, control characters) at random string positions; each document goes through flatten, expand and mixin x {json,yaml} input x {json,yaml} output x compact/pretty; YAML outputs are reloaded with swag.YAMLDoc and compared with the JSON output as exact JSON values (numbers as exact decimals). generate spec (.json vs .yml, integers beyond 2^53) and init spec are run on fixed inputs. Each (document, command, compact) triple is a distinct non-trivial case.",
+		"samples": samples, "coverage": cov, "violations": viols, "model_cases": len(intCases),
 	}
 	b, _ := json.MarshalIndent(rep, "", " ")
 	_ = os.WriteFile(filepath.Join(*out, "yaml.json"), b, 0o644)
